@@ -1,0 +1,142 @@
+//go:build verif
+
+package main
+
+import (
+	"bufio"
+	"bytes"
+	"encoding/hex"
+	"encoding/json"
+	"fmt"
+	"os"
+	"time"
+
+	"github.com/tdakkota/docker-logql/internal/lokiapi"
+)
+
+// Verification hook (build tag `verif` only): when DOCKER_LOGQL_VERIF_DRIVER=1 the binary serves a
+// line protocol on stdin/stdout that exposes the unexported renderResult, parseTimeRange,
+// parseTimestamp and parseStep to the correspondence harness under /verif. One JSON request per
+// line, one JSON reply per line.
+
+type verifReq struct {
+	Op string `json:"op"`
+	// render
+	Timestamp bool          `json:"timestamp"`
+	Container bool          `json:"container"`
+	Color     bool          `json:"color"`
+	Streams   []verifStream `json:"streams"`
+	// timerange / step / timestamp
+	Now   int64   `json:"now"`
+	Start *string `json:"start"`
+	End   *string `json:"end"`
+	Since *string `json:"since"`
+	Step  *string `json:"step"`
+	Value string  `json:"value"`
+	Def   int64   `json:"def"`
+	From  int64   `json:"from"`
+	To    int64   `json:"to"`
+}
+
+type verifStream struct {
+	Labels  map[string]string `json:"labels"`
+	Entries []verifEntry      `json:"entries"`
+}
+
+type verifEntry struct {
+	T uint64 `json:"t"`
+	V string `json:"v"` // hex
+}
+
+type verifResp struct {
+	Out   string `json:"out,omitempty"` // hex
+	A     int64  `json:"a,omitempty"`
+	B     int64  `json:"b,omitempty"`
+	Err   string `json:"err,omitempty"`
+	Panic string `json:"panic,omitempty"`
+}
+
+func init() {
+	if os.Getenv("DOCKER_LOGQL_VERIF_DRIVER") != "1" {
+		return
+	}
+	time.Local = time.UTC
+	in := bufio.NewReaderSize(os.Stdin, 1<<20)
+	out := bufio.NewWriter(os.Stdout)
+	for {
+		line, err := in.ReadBytes('\n')
+		if len(line) > 0 {
+			resp := verifHandle(line)
+			b, _ := json.Marshal(resp)
+			out.Write(b)
+			out.WriteByte('\n')
+			out.Flush()
+		}
+		if err != nil {
+			break
+		}
+	}
+	os.Exit(0)
+}
+
+func verifHandle(line []byte) (resp verifResp) {
+	defer func() {
+		if r := recover(); r != nil {
+			resp = verifResp{Panic: fmt.Sprint(r)}
+		}
+	}()
+	var req verifReq
+	if err := json.Unmarshal(line, &req); err != nil {
+		return verifResp{Err: "bad request: " + err.Error()}
+	}
+	opt := func(s *string) (o lokiapi.OptLokiTime) {
+		if s != nil {
+			o.SetTo(lokiapi.LokiTime(*s))
+		}
+		return o
+	}
+	dur := func(s *string) (o lokiapi.OptPrometheusDuration) {
+		if s != nil {
+			o.SetTo(lokiapi.PrometheusDuration(*s))
+		}
+		return o
+	}
+	switch req.Op {
+	case "render":
+		var data lokiapi.QueryResponseData
+		var streams lokiapi.Streams
+		for _, s := range req.Streams {
+			st := lokiapi.Stream{Stream: lokiapi.NewOptLabelSet(lokiapi.LabelSet(s.Labels))}
+			for _, e := range s.Entries {
+				v, _ := hex.DecodeString(e.V)
+				st.Values = append(st.Values, lokiapi.LogEntry{T: e.T, V: string(v)})
+			}
+			streams = append(streams, st)
+		}
+		data.SetStreamsResult(lokiapi.StreamsResult{Result: streams})
+		var buf bytes.Buffer
+		if err := renderResult(&buf, renderOptions{timestamp: req.Timestamp, container: req.Container, color: req.Color}, data); err != nil {
+			return verifResp{Err: err.Error()}
+		}
+		return verifResp{Out: hex.EncodeToString(buf.Bytes())}
+	case "timerange":
+		start, end, err := parseTimeRange(time.Unix(0, req.Now), opt(req.Start), opt(req.End), dur(req.Since))
+		if err != nil {
+			return verifResp{Err: err.Error()}
+		}
+		return verifResp{A: start.UnixNano(), B: end.UnixNano()}
+	case "timestamp":
+		t, err := parseTimestamp(lokiapi.LokiTime(req.Value), time.Unix(0, req.Def))
+		if err != nil {
+			return verifResp{Err: err.Error()}
+		}
+		return verifResp{A: t.UnixNano()}
+	case "step":
+		d, err := parseStep(dur(req.Step), time.Unix(0, req.From), time.Unix(0, req.To))
+		if err != nil {
+			return verifResp{Err: err.Error()}
+		}
+		return verifResp{A: int64(d)}
+	}
+	return verifResp{Err: "unknown op"}
+}
